@@ -301,6 +301,7 @@ def check_property(prop, cs, args, seed, lock, write_lock=False):
             "functions_under_contract": functions,
             "stated": {c.name: c.stated for c in mine},
             "undischarged": [{"name": ob["name"], "status": ob.get("status"), "reason": ob.get("reason"), "note": ob.get("note")} for ob in failed][:50],
+            "slowest": sorted([{"name": ob["name"], "seconds": ob.get("seconds", 0), "backend": ob.get("backend"), "attempts": ob.get("attempts")} for ob in obligations], key=lambda d: -d["seconds"])[:8],
             "finite_tables": extra["tables"],
             "bounded_stand_ins (never counted as proved)": extra["bounded"],
             "samples": samples or [{"note": "no non-trivial obligation"}],
